@@ -117,6 +117,9 @@ def _run_worker_once(binary, models_path, n_models, nsolvers, extra_args=(), cal
             if cur[0] >= n_models:
                 return results
         results[cur] = {"status": "timeout" if hung else "abort"}
+        # a change that makes MANY calls hang would otherwise cost a watchdog period each: stop after 40, the rest is not run
+        if sum(1 for v in results.values() if v.get("status") == "timeout") >= 40:
+            return results
         i0, k0 = cur[0], cur[1] + 1
         if k0 >= nsolvers:
             i0, k0 = i0 + 1, 0
